@@ -39,6 +39,25 @@ type c15Outcome struct {
 
 var devNull, _ = os.OpenFile(os.DevNull, os.O_WRONLY, 0)
 
+// c15Watch runs one load under a watchdog: "loading always ends".
+func c15Watch(dr *recovery.DatabaseRecovery, mainPath, personalPath string, budget time.Duration) (db *database.Database, err error, ended bool) {
+	type res struct {
+		db  *database.Database
+		err error
+	}
+	ch := make(chan res, 1)
+	go func() {
+		d, e := dr.LoadDatabaseWithFallback(mainPath, personalPath)
+		ch <- res{d, e}
+	}()
+	select {
+	case r := <-ch:
+		return r.db, r.err, true
+	case <-time.After(budget):
+		return nil, nil, false
+	}
+}
+
 // c15Load runs LoadDatabaseWithFallback with the attempt observer installed.
 func c15Load(mainPath, personalPath string, cfg c15Config) (out c15Outcome) {
 	defer func() {
@@ -60,8 +79,13 @@ func c15Load(mainPath, personalPath string, cfg c15Config) (out c15Outcome) {
 	os.Stdout = devNull // the loader prints a warning for every fallback
 	dr := recovery.NewDatabaseRecovery(recovery.RetryConfig{MaxAttempts: cfg.MaxAttempts, BaseDelay: time.Duration(cfg.BaseDelayUs) * time.Microsecond,
 		MaxDelay: time.Duration(cfg.MaxDelayUs) * time.Microsecond, BackoffFactor: cfg.BackoffFactor})
-	db, err := dr.LoadDatabaseWithFallback(mainPath, personalPath)
+	// the longest legitimate schedule here: 6 attempts with waits capped at 10 ms
+	db, err, ended := c15Watch(dr, mainPath, personalPath, 20*time.Second)
 	os.Stdout = saved
+	if !ended {
+		out.Panic = fmt.Sprintf("loading did not end within 20 s (%d attempts so far): it must end after at most the configured number of attempts", out.Attempts)
+		return out
+	}
 	if err != nil {
 		out.Err = err.Error()
 	}
@@ -138,7 +162,7 @@ func c15Materialise(dir, name, fault string, cmds []database.Command) string {
 func c15Judge(mainF, persF, backF string, cfg c15Config, out c15Outcome) string {
 	where := fmt.Sprintf("main=%s personal=%s backup=%s config=%+v", mainF, persF, backF, cfg)
 	if out.Panic != "" {
-		return "loading panicked: " + out.Panic + " (" + where + ")"
+		return "loading crashed or hung: " + out.Panic + " (" + where + ")"
 	}
 	if out.DBNil || out.Err != "" {
 		return fmt.Sprintf("loading ended with db=nil:%v err=%q; a usable database and no error are required (%s)", out.DBNil, out.Err, where)
@@ -379,9 +403,12 @@ func TestC15_Transient(t *testing.T) {
 		os.Stdout = devNull
 		dr := recovery.NewDatabaseRecovery(recovery.RetryConfig{MaxAttempts: cfg.MaxAttempts, BaseDelay: time.Duration(cfg.BaseDelayUs) * time.Microsecond,
 			MaxDelay: time.Duration(cfg.MaxDelayUs) * time.Microsecond, BackoffFactor: cfg.BackoffFactor})
-		db, err := dr.LoadDatabaseWithFallback(mp, pp)
+		db, err, ended := c15Watch(dr, mp, pp, 20*time.Second)
 		os.Stdout = saved
 		recovery.VerifSetObserver(nil)
+		if !ended {
+			t.Fatalf("loading did not end within 20 s (%s file %s, config %+v)", which, fault, cfg)
+		}
 		where := fmt.Sprintf("%s file %s until attempt %d, then %s, config=%+v, attempts seen=%d", which, fault, k, then, cfg, out.Attempts)
 		if then == "missing" && which == "personal" {
 			withPersonal = false // a notebook that is merely absent: the real database is the main entries alone
@@ -456,9 +483,12 @@ func TestC15_LongBudget(t *testing.T) {
 		})
 		saved := os.Stdout
 		os.Stdout = devNull
-		db, err := recovery.NewDatabaseRecovery(cfg).LoadDatabaseWithFallback(mp, filepath.Join(dir, "personal.yml"))
+		db, err, ended := c15Watch(recovery.NewDatabaseRecovery(cfg), mp, filepath.Join(dir, "personal.yml"), 30*time.Second)
 		os.Stdout = saved
 		recovery.VerifSetObserver(nil)
+		if !ended {
+			t.Fatalf("loading did not end within 30 s (config %+v; the waits sum to at most %v)", cfg, time.Duration(cfg.MaxAttempts)*cfg.MaxDelay)
+		}
 		if err != nil || db == nil || len(db.Commands) == 0 {
 			t.Fatalf("loading ended with err=%v and no usable fallback (config %+v)", err, cfg)
 		}
